@@ -1186,6 +1186,15 @@ def do_batch(
         yield tmp
 
 
+@async_variant(do_batch)  # type: ignore
+async def async_do_batch(
+    value: "t.AsyncIterable[V] | t.Iterable[V]",
+    linecount: int,
+    fill_with: "V | None" = None,
+) -> "t.Iterator[list[V]]":
+    return do_batch(await auto_to_list(value), linecount, fill_with)
+
+
 def do_round(
     value: float,
     precision: int = 0,
@@ -1858,7 +1867,7 @@ async def async_select_or_reject(
 FILTERS = {
     "abs": abs,
     "attr": do_attr,
-    "batch": do_batch,
+    "batch": async_do_batch,
     "capitalize": do_capitalize,
     "center": do_center,
     "count": len,
